@@ -168,7 +168,9 @@ def applyMsg (ds : DS) (stake : Gov.StakeView) (w : MW) (m : Json) : Option (Exc
   | "cert.platform" => some ((Cert.certifyPlatform w.c (J.strOf m "certifier") (J.strOf m "pubkey64") (J.strOf m "platform")).map (fun c' => { w with c := c' }))
   | "bank.send" =>
     let src := J.strOf m "from"; let dst := J.strOf m "to"; let amt := J.coinsOf m "amt"
-    if Cvm.kindAt w.k dst != "none" then
+    -- module accounts are blocked recipients (app/app.go ModuleAccountAddrs, tied by ShieldTie.tie_module_accounts_blocked)
+    if isModuleAddr ds dst then some (err "bank:blocked-recipient")
+    else if Cvm.kindAt w.k dst != "none" then
       some ((Cvm.sendToContract "uctk" w.l w.v w.k src dst amt).map (fun (l, k) => { w with l := l, k := k }))
     else some ((Vesting.send w.l w.v src dst amt).map (fun l => { w with l := l }))
   | "bank.multisend" =>
